@@ -3,6 +3,7 @@ package sessiontracker
 import (
 	"fmt"
 	"strconv"
+	"sync"
 	"time"
 
 	"github.com/elastic/go-libaudit/v2/aucoalesce"
@@ -57,11 +58,19 @@ type sessionTracker struct {
 
 	// l is the logger to use.
 	l *zap.SugaredLogger
+
+	// mtx serializes remote logins, audit events and cache cleanup
+	// so that a login and the audit session it belongs to cannot
+	// both end up waiting for each other.
+	mtx sync.Mutex
 }
 
 // RemoteLogin validates and checks if there is an auditd session already present for the
 // RemoteLogin passed as parameter. It modifies the user object by setting the remote login information.
 func (o *sessionTracker) RemoteLogin(rul common.RemoteUserLogin) error {
+	o.mtx.Lock()
+	defer o.mtx.Unlock()
+
 	var debugLogger *zap.SugaredLogger
 	if o.l.Level().Enabled(zap.DebugLevel) {
 		debugLogger = o.l.With("RemoteUserLogin", rul)
@@ -135,6 +144,9 @@ func (o *sessionTracker) RemoteLogin(rul common.RemoteUserLogin) error {
 // It checks if the event session is present in active audit sessions and then it triggers the audit with that session.
 // If the event is not present then it triggers the audit without the session.
 func (o *sessionTracker) AuditdEvent(event *aucoalesce.Event) error {
+	o.mtx.Lock()
+	defer o.mtx.Unlock()
+
 	// TODO: Handle the "SystemAction" type (where session == "unset").
 	//  ps: "unset" is a string.
 
@@ -287,6 +299,9 @@ func (o *sessionTracker) auditEventWithoutSession(event *aucoalesce.Event, debug
 // DeleteUsersWithoutLoginsBefore it takes a time parameter. It iterates over active audit sessions.
 // If the session is added before the timestamp and the user does not have a remote login, then it deletes that session.
 func (o *sessionTracker) DeleteUsersWithoutLoginsBefore(t time.Time) {
+	o.mtx.Lock()
+	defer o.mtx.Unlock()
+
 	var debugLogger *zap.SugaredLogger
 	if o.l.Level().Enabled(zap.DebugLevel) {
 		debugLogger = o.l.With(
@@ -316,6 +331,9 @@ func (o *sessionTracker) DeleteUsersWithoutLoginsBefore(t time.Time) {
 // It iterates over remote user logins and checks if a login was before the timestamp,
 // then it deletes that remote user login.
 func (o *sessionTracker) DeleteRemoteUserLoginsBefore(t time.Time) {
+	o.mtx.Lock()
+	defer o.mtx.Unlock()
+
 	var debugLogger *zap.SugaredLogger
 	if o.l.Level().Enabled(zap.DebugLevel) {
 		debugLogger = o.l.With(
